@@ -41,7 +41,7 @@ def damage(r, cells, spans, order, kind=None):
     """returns (cells', set of physical indexes whose fields were hit by guaranteed-detectable damage,
     set of physical indexes possibly affected in any way, description)"""
     c = list(cells)
-    kind = r.below(15) if kind is None else kind % 15
+    kind = r.below(16) if kind is None else kind % 16
     hit, touched = set(), set()
     if kind <= 3:      # detectable damage inside one or more fields
         for _ in range(r.range(1, 3)):
@@ -114,6 +114,22 @@ def damage(r, cells, spans, order, kind=None):
                 c[p] = 0 if kind == 10 else r.below(2)
         touched = {k, min(len(order) - 1, k + 1)}
         desc = 'data-mark-and-next-id-destroyed'
+    elif kind == 15:   # the sync and mark in front of data field k are gone AND the ID field of sector k+1 is there but fails its CRC
+        # (one flipped bit in C/H/R/N): two correlated faults - the good header k must not be paired with the intact data field k+1
+        dfs_ = [f for f in spans if f[0] == 'data']
+        ids = [f for f in spans if f[0] == 'id']
+        k = r.below(max(1, len(dfs_) - 1))
+        f = dfs_[k]
+        for p in range(f[2] - 5 * 16, f[2] + 16):
+            if 0 <= p < len(c):
+                c[p] = 0
+        if k + 1 < len(ids):
+            g = ids[k + 1]
+            c[g[2] + 16 * r.range(1, 4) + 2 * r.below(8) + 1] ^= 1
+            hit.add(k + 1)
+        hit.add(k)
+        touched = {k, min(len(order) - 1, k + 1)}
+        desc = 'data-mark-destroyed+next-id-crc-bad'
     elif kind == 14:   # one flipped data bit inside an address mark byte itself (FB -> FA/F9/..., FE -> FC/...): not the mark any more
         f = r.choice(spans)
         bit = r.choice([7, 6, 6, 7, r.below(8)])          # MSB-first index: 7 and 6 are the two low bits (FB -> FA, F9)
@@ -162,19 +178,23 @@ def run(ctx):
     r = ctx.rng
     quick = ctx.tier == 'quick'
     reqs, metas = [], []
-    for k in range(60 if quick else 1500):
-        mfm = r.chance(1, 2)
-        if k % 15 in (13, 14):
-            mfm = (k // 15) % 2 == 0        # the CRC-specific damage on both encodings in every run
+    nmain = 64 if quick else 1600
+    for k in range(nmain + (8 if quick else 64)):
+        two_faults = k >= nmain        # the tail of every run: the two-fault pattern on plain tracks of both encodings
+        mfm = r.chance(1, 2) if not two_faults else k % 2 == 0
+        if k % 16 in (13, 14, 15, 10, 11):
+            mfm = (k // 16) % 2 == 0        # the CRC-specific and the two-fault damage on both encodings in every run
         nsec = r.choice([10, 10, 4]) if not mfm else r.choice([18, 16, 5])
         lay = rand_layout(r, mfm, nsec)
-        if r.chance(1, 4):
+        if r.chance(1, 4) and not two_faults:
             lay.deleted = set(r.shuffle(list(range(nsec)))[:r.range(1, 3)])       # deleted-data records: never to be returned
         cyl, head = r.below(80), r.below(2)
         secs = {rec: bytes([rec, cyl, k & 255]) + r.bytes(253) for rec in range(nsec)}     # all distinct
         cells = flux.mfm_track(cyl, head, secs, lay) if mfm else flux.fm_track(cyl, head, secs, lay)
         spans = field_spans(lay, mfm, nsec)
-        if r.chance(1, 12):
+        if two_faults:
+            bad, hit, touched, desc = damage(r, cells, spans, lay.order, kind=15)
+        elif r.chance(1, 12):
             bad, hit, touched, desc = [r.below(2) for _ in range(r.choice([0, 7, 64, 3000, 50000]))], set(), set(range(nsec)), 'random-stream'
         elif r.chance(1, 12):
             bad, hit, touched, desc = list(cells), set(), set(), 'intact'
